@@ -126,7 +126,8 @@ def check_subclasses(ctx):
 
 ORDERS = ['base-first', 'props-first', 'reverse', 'fewest-arguments-first',
           'class-level-first', 'decode-first', 'subclass-first',
-          'interleaved']
+          'interleaved', 'abandoned-iteration-first',
+          'nested-iteration-first', 'partial-protocol-first']
 
 
 def _use(obj):
@@ -210,6 +211,40 @@ def check_order(ctx, variant):
                     pass
         except Exception:  # noqa
             pass
+    elif variant in ('abandoned-iteration-first', 'nested-iteration-first',
+                     'partial-protocol-first'):
+        # what the first use of a class in a process may well be: a loop
+        # left at the first hit, next(iter(...)), any(...), a loop inside a
+        # loop over the same object, a single membership test
+        objs = [corpus.construct(m, corpus.nondefault_vector(m))
+                for m in methods]
+        objs.append(p.commands.Basic.Properties(content_type='a',
+                                                headers={'k': 1}))
+        for k, obj in enumerate(objs):
+            try:
+                if variant == 'abandoned-iteration-first':
+                    for _pair in obj:
+                        break
+                    next(iter(obj), None)
+                    any(True for _pair in obj)
+                    it = iter(obj)
+                    for _n in range(k % 4):
+                        next(it, None)
+                    del it
+                elif variant == 'nested-iteration-first':
+                    for _a in obj:
+                        for _b in obj:
+                            pass
+                        break
+                    a, b = iter(obj), iter(obj)
+                    next(a, None), next(b, None), next(b, None), next(a, None)
+                else:
+                    'nothing' in obj
+                    len(obj)
+                    for name in list(type(obj).attributes())[:1]:
+                        obj[name]
+            except Exception:  # noqa
+                pass
     elif variant == 'interleaved':
         # one class of each AMQP class first, the properties in the middle
         methods.sort(key=lambda m: (m.method_id, m.class_id))
